@@ -3,6 +3,8 @@ pub mod c13;
 pub mod c19;
 pub mod c20;
 pub mod c21;
+pub mod c22;
+pub mod c23;
 pub mod ingest_props;
 pub mod ingestworld;
 pub mod ord_props;
@@ -12,5 +14,5 @@ pub mod storeworld;
 pub mod syncworld;
 
 pub fn all() -> Vec<&'static dyn simcore::Property> {
-    vec![&ingest_props::C01, &ingest_props::C03, &ingest_props::C05, &ord_props::C11, &ord_props::C12, &store_props::C08, &store_props::C09, &c10::C10, &c13::C13, &c19::C19, &c20::C20, &c21::C21]
+    vec![&ingest_props::C01, &ingest_props::C03, &ingest_props::C05, &ord_props::C11, &ord_props::C12, &store_props::C08, &store_props::C09, &c10::C10, &c13::C13, &c19::C19, &c20::C20, &c21::C21, &c22::C22, &c23::C23]
 }
